@@ -485,6 +485,7 @@ func segmentFMP4MuxParts(
 	tracks []*fmp4.InitTrack,
 	m muxer,
 ) (time.Duration, error) {
+	finishedTracks := make(map[uint32]struct{})
 	var startDTSMP4 int64
 	var durationMP4 int64
 	moofOffset := uint64(0)
@@ -556,7 +557,13 @@ func segmentFMP4MuxParts(
 
 			for _, e := range trun.Entries {
 				if dts >= durationMP4 {
-					breakAtNextMdat = true
+					// stop reading only when every track has reached the end of the window:
+					// samples of different tracks are not stored in strict time order
+					// and other tracks might still have samples to read in next parts.
+					finishedTracks[tfhd.TrackID] = struct{}{}
+					if len(finishedTracks) >= len(tracks) {
+						breakAtNextMdat = true
+					}
 					break
 				}
 
